@@ -143,8 +143,119 @@ def renderTree (t : List (Nat × List (Route Nat))) : String :=
 def renderBits (b : List (List Bool)) : String :=
   ".".intercalate (b.map fun r => String.ofList (r.map fun x => if x then '1' else '0'))
 
+
+/-! ### histories: several requests, run-time registrations and rebuilds on one app -/
+
+inductive HOp where
+  | req (method : String) (path : Bytes)
+  | reg (r : RegIn)
+  | rebuild
+
+def parseOp (names : List String) (cfg : Cfg) (npaths : Nat) (s : String) : Option HOp :=
+  if s == "B" then some .rebuild
+  else if s.startsWith "Q=" then
+    match (String.ofList (s.toList.drop 2)).splitOn "=" with
+    | [m, p] => do
+      let path ← fromHex p
+      if validName m && pathOK path then some (.req m path) else none
+    | _ => none
+  else if s.startsWith "R=" then (parseReg names cfg npaths (String.ofList (s.toList.drop 2))).map .reg
+  else none
+
+/-- scripts of a history: no path overrides (there are no override targets) -/
+def noSetPath (g : Reg Nat) : Bool :=
+  g.handlers.all fun h => match h.script with | .setPath _ => false | _ => true
+
+/-- One history. The real dispatcher serves what `buildTree` saw last (startup or `RebuildTree()`): a
+request is judged against the registrations made up to the last rebuild — model and specification
+are the single-request ones on that prefix of the registration list; nothing else of the history
+(earlier requests, the pooled context, later registrations) may matter. -/
+def handleHistory (id cfgS regsS opsS implObs : String) : Except String Verdict := do
+  let some (cfg, _custom, methodNames) := parseCfg cfgS | throw "outside-domain: cfg"
+  if regsS.isEmpty || regsS == "-" then throw "outside-domain: empty table"
+  let opStrs := opsS.splitOn "|"
+  let nq := opStrs.countP (·.startsWith "Q=")
+  if nq == 0 then throw "outside-domain: history without request"
+  let some regs0 := (regsS.splitOn ";").mapM (parseReg methodNames cfg (nq + 1)) | throw "outside-domain: regs"
+  let some ops := opStrs.mapM (parseOp methodNames cfg (nq + 1)) | throw "outside-domain: ops"
+  if implObs == "panic" then throw "outside-domain: harness reported a panic"
+  let kv := (implObs.splitOn ";").filterMap fun p => match p.splitOn "=" with
+    | [k, v] => some (k, v) | _ => none
+  let get (k : String) : Option String := (kv.find? (·.1 == k)).map (·.2)
+  let some rS := get "r" | throw "unparsable observation"
+  let some rpS := get "rp" | throw "unparsable observation"
+  let some mbS := get "mb" | throw "unparsable observation"
+  let results := rS.splitOn "/"
+  if results.length != nq then throw "observation: result count"
+  let regsAll : List (Reg Nat) := regs0.map (·.reg) ++ ops.filterMap fun o => match o with | .reg r => some r.reg | _ => none
+  if !(regsAll.all noSetPath) then throw "outside-domain: path override in a history"
+  -- run-time registrations must not merge into an existing route (they would be served before the rebuild)
+  let rawsOK := (List.range regsAll.length).all fun i =>
+    i < regs0.length || !((regsAll.take i).any fun g => some g.raw == (regsAll[i]?).map (·.raw))
+  if !rawsOK then throw "outside-domain: run-time registration repeats a path"
+  let some realRaw := dotHex rpS | throw "observation: rp"
+  if realRaw.length != regsAll.length then throw "observation: rp length"
+  let mb := parseBits mbS
+  if mb.length != regsAll.length || !(mb.all (·.length == nq)) then throw "observation: bit matrix shape"
+  let regsSpecAll : List (Reg Nat) := (regsAll.zip realRaw).map fun x => { x.1 with raw := x.2 }
+  let rows := regsSpecAll.zip mb
+  let M (raw : Bytes) (use : Bool) (p : Nat) : Bool :=
+    match rows.find? (fun x => x.1.raw == raw && x.1.use == use) with
+    | some x => x.2.getD p false
+    | none => false
+  let consistent := rows.all fun x => rows.all fun y => !(x.1.raw == y.1.raw && x.1.use == y.1.use) || x.2 == y.2
+  let reqPaths : List Bytes := ops.filterMap fun o => match o with | .req _ p => some p | _ => none
+  let pathBytes (i : Nat) : Bytes := ctxPath cfg (reqPaths.getD i [])
+  let E : Env Nat Nat :=
+    { M := M
+      pkey := fun p => pathHash maxDet (detectionPath cfg (pathBytes p))
+      setp := fun _ _ => none
+      nMethods := methodNames.length }
+  -- walk the history
+  let step (st : Nat × Nat × Nat × List String × Option String × Option String × List String) (o : HOp) :=
+    let (nreg, visible, qi, outs, spec, known, tags) := st
+    match o with
+    | .reg _ => (nreg + 1, visible, qi, outs, spec, known, tags)
+    | .rebuild => (nreg, nreg, qi, outs, spec, known, if visible < nreg then "rebuild-new" :: tags else tags)
+    | .req methodS _ =>
+      let regs := regsAll.take visible
+      let regsSpec := regsSpecAll.take visible
+      let impl := results.getD qi ""
+      match methodInt methodNames methodS with
+      | none =>
+        let out := "-,501,-"
+        (nreg, visible, qi + 1, outs ++ [out],
+          (if spec.isNone && impl != out then some s!"history-request {qi} want {out}" else spec), known, tags)
+      | some m =>
+        let S := build true regs
+        let mo := match dispatchS E S false 4000 m qi with
+          | .ok ob => ob
+          | .error _ => { trace := [], fin := .outOfFuel }
+        let looped := mo.fin == .outOfFuel || mo.trace.length ≥ 1000
+        let (ms, ma) := renderEnd methodNames mo.fin
+        let out := if looped then "loop,loop,-" else s!"{renderTrace mo.trace},{ms},{ma}"
+        let want := linear E regsSpec m qi
+        let (ws, wa) := renderEnd methodNames want.fin
+        let wantS := s!"{renderTrace want.trace},{ws},{wa}"
+        let bad := impl != wantS
+        let k : Option String :=
+          if Known.K1 E regs m qi then some "K1" else if Known.K2 E regs m qi then some "K2" else none
+        let tags := (if visible < nreg then "pending-reg" :: tags else tags)
+        let tags := if !want.trace.isEmpty then "ran" :: tags else tags
+        if spec.isNone && bad then
+          (nreg, visible, qi + 1, outs ++ [out], some s!"first-match history-request {qi} want {wantS}", k, tags)
+        else (nreg, visible, qi + 1, outs ++ [out], spec, known, tags)
+  let (_, _, _, outs, spec, known, tags) :=
+    ops.foldl step (regs0.length, regs0.length, 0, [], none, none, [])
+  let spec := if !consistent then some "match-depends-on-context" else spec
+  let modelObs := s!"r={"/".intercalate outs};rp={hexDot (regsAll.map (·.raw))};mb={mbS}"
+  let tags := (["history", "nt-history"] ++ tags.eraseDups ++
+    (if methodNames != defaultMethods then ["custom-methods"] else []))
+  pure { id := id, modelObs := modelObs, implObs := implObs, spec := spec, known := known, tags := tags }
+
 def handleCase (f : List String) : Except String Verdict := do
   match f with
+  | [id, cfgS, regsS, opsS, implObs] => handleHistory id cfgS regsS opsS implObs
   | [id, cfgS, regsS, pathsS, methodS, implObs] =>
     let some (cfg, _custom, methodNames) := parseCfg cfgS | throw "outside-domain: cfg"
     let some paths := hexList pathsS | throw "outside-domain: paths"
